@@ -269,6 +269,10 @@ def run(F, rep, tier):
     c06.rule_r1b(F, rep)
     c19.rule_r5(F, rep, "C19.R5")
     c20.rule_r6(F, rep)
+    # the text is built in a second run without import callbacks: anything the deep pass leaves pending panics there
+    from . import c12, visibility
+    c12.rule_r7(F, rep)
+    visibility.rule_partition(F, rep, "C07.R6")
     rep.assume("evaluator data-stack balance, index/arithmetic-overflow panics and unreachable!() reachability are "
                "not decided (no whole-evaluator stack-effect typing)")
     return EXPLANATION
